@@ -110,6 +110,17 @@ add(
     "DESIGN.md §4 C13",
 )
 
+add(
+    "C18", "exploration",
+    "Hypothesis-generated projects x spdx option combinations; independent tag-value reader; cross-check with lint --json, hashlib.sha1 and truth-table equivalence of LicenseConcluded",
+    "About 1400 generated projects per quick run (C01's population with nested AND/OR/WITH expressions, several expressions per file, files padded to "
+    "sizes around multiples of the 8192-byte checksum chunk, byte-identical files under one base name in two directories, LicenseRef- texts) are "
+    "exported with every option combination; the document is parsed independently and every File section, SPDXID / DESCRIBES bijection, checksum, "
+    "identifier set, notice set, LicenseConcluded (under every truth assignment) and extracted licence text is checked.",
+    "Trusts vlib/ref/spdxtv.py and vlib/ref/boolexpr.py; '</text>' never occurs in generated texts.",
+    "DESIGN.md §4 C18",
+)
+
 NOT_BUILT = "check not built yet in this revision of /verif (planned in DESIGN.md §4; property-based testing applies)"
 
 
